@@ -231,7 +231,7 @@ def run(chk):
                 dN = InterpolatorDispatcher(XGrid(list(nodes), log=log), dd, mode_N=True)
                 dX = InterpolatorDispatcher(XGrid(list(nodes), log=log), dd, mode_N=False)
             except Exception as e:  # noqa: BLE001
-                chk.fail(f"{tag6}.build", f"{type(e).__name__}: {e}", fn=fnd, replay=rp6)
+                chk.raised(f"{tag6}.build", e, fn=fnd, replay=rp6)
                 continue
             bad, restored = [], True
             for j, (bN, bX) in enumerate(zip(dN, dX)):
